@@ -64,7 +64,7 @@ Section Fly.
   (* ---- oracles ---- *)
   (* the context constructor: the fixed information of the flight (a dictionary of attributes) or a reason *)
   Variable ctor : options -> mission -> dict + Z.
-  Variable calc : options -> (string -> option value) -> Z * Z.           (* starting mass, fuel load *)
+  Variable calc : options -> (string -> option value) -> (Z * Z) + Z.     (* (starting mass, fuel load) or a reason *)
   Variable iter_once : options -> (string -> option value) -> (Z * Z) + Z. (* (trajectory, residual) or a reason *)
   Variable small : options -> Z -> bool.                                  (* abs(residual) < mass_iter_reltol *)
   Variable adjust : (string -> option value) -> Z -> Z * Z.               (* corrected (starting mass, fuel load) *)
@@ -94,19 +94,25 @@ Section Fly.
     end.
 
   (* starting mass and fuel load, after the context has been stored *)
-  Definition prepare (b : builder) : builder :=
+  Definition prepare (b : builder) : builder + Z :=
     match getattr b "starting_mass" with
     | Some None =>
-        let '(sm, tf) := calc (b_opts b) (view b) in
-        setattr (setattr b "total_fuel_mass" (Some tf)) "starting_mass" (Some sm)
+        match calc (b_opts b) (view b) with
+        | inl (sm, tf) => inl (setattr (setattr b "total_fuel_mass" (Some tf)) "starting_mass" (Some sm))
+        | inr e => inr e
+        end
     | Some (Some _) =>
-        if gfix then let '(_, tf) := calc (b_opts b) (view b) in setattr b "total_fuel_mass" (Some tf) else b
-    | None => b
+        if gfix then
+          match calc (b_opts b) (view b) with
+          | inl (_, tf) => inl (setattr b "total_fuel_mass" (Some tf))
+          | inr e => inr e
+          end
+        else inl b
+    | None => inl b
     end.
 
   (* the body of the try block, after the context has been stored *)
-  Definition body (b : builder) : builder * outcome :=
-    let b1 := prepare b in
+  Definition body_after (b1 : builder) : builder * outcome :=
     if o_optimize (b_opts b1) then (b1, Raised (Reason NOT_IMPLEMENTED))
     else
       match fly_iteration b1 with
@@ -122,6 +128,12 @@ Section Fly.
           end
         else finish b2 t
       end.
+
+  Definition body (b : builder) : builder * outcome :=
+    match prepare b with
+    | inr e => (b, Raised (Reason e))          (* calc_starting_mass itself refused (state outside the envelope) *)
+    | inl b1 => body_after b1
+    end.
 
   (* `del self.ctx` *)
   Definition del_ctx (b : builder) : builder := mkb (b_opts b) (b_own b) None.
@@ -162,13 +174,14 @@ End Fly.
 (* ------------------------------------------------------------------------------------------------ *)
 Record script := mkscript {
   s_ctor : option Z;                 (* Some r: the context constructor refuses with reason r *)
+  s_calc : option Z;                 (* Some r: calc_starting_mass refuses with reason r *)
   s_iters : list ((Z * bool) + Z) }. (* per _fly_iteration: (trajectory token, residual small?) or a reason *)
 
 (* the replaying oracles read the iteration number from the context attribute "iter" that the replayed
    constructor plants and the replayed [adjust] does not touch; to stay inside the model the iteration
    counter is carried in the starting-mass token instead: token = mission id * 1000 + iteration number *)
 Definition replay_ctor (ss : list script) (_ : options) (m : mission) : dict + Z :=
-  match s_ctor (nth (Z.to_nat (m_id m)) ss (mkscript None [])) with
+  match s_ctor (nth (Z.to_nat (m_id m)) ss (mkscript None None [])) with
   | Some r => inr r
   | None => inl [("mission", Some (m_id m)); ("starting_mass", None); ("total_fuel_mass", None)]
   end.
@@ -176,10 +189,13 @@ Definition mission_of_view (v : string -> option value) : Z :=
   match v "mission" with Some (Some i) => i | _ => 0%Z end.
 Definition iter_of_view (v : string -> option value) : Z :=
   match v "starting_mass" with Some (Some i) => (i mod 1000)%Z | _ => 0%Z end.
-Definition replay_calc (_ : options) (v : string -> option value) : Z * Z :=
-  ((mission_of_view v * 1000)%Z, (mission_of_view v * 1000)%Z).
+Definition replay_calc (ss : list script) (_ : options) (v : string -> option value) : (Z * Z) + Z :=
+  match s_calc (nth (Z.to_nat (mission_of_view v)) ss (mkscript None None [])) with
+  | Some r => inr r
+  | None => inl ((mission_of_view v * 1000)%Z, (mission_of_view v * 1000)%Z)
+  end.
 Definition replay_iter (ss : list script) (_ : options) (v : string -> option value) : (Z * Z) + Z :=
-  let s := nth (Z.to_nat (mission_of_view v)) ss (mkscript None []) in
+  let s := nth (Z.to_nat (mission_of_view v)) ss (mkscript None None []) in
   match nth (Z.to_nat (iter_of_view v)) (s_iters s) (inr (-99)%Z) with
   | inl (t, sm) => inl (t, if sm then 1%Z else 0%Z)
   | inr e => inr e
@@ -204,6 +220,6 @@ Definition run_history (guarded gfix : bool) (os : list options) (ss : list scri
   : list shown * bool * list string :=
   let ms := map (fun p => mkmission (fst p) (snd p)) (combine ids given) in
   let ops := flat_map (fun p => [SetOptions (fst p); Fly (snd p)]) (combine os ms) in
-  let '(b, outs) := run_ops (replay_ctor ss) replay_calc (replay_iter ss) replay_small replay_adjust guarded gfix
+  let '(b, outs) := run_ops (replay_ctor ss) (replay_calc ss) (replay_iter ss) replay_small replay_adjust guarded gfix
                             (fresh (nth 0 os (mkopts false false 0 0))) ops in
   (map show outs, match b_ctx b with None => true | Some _ => false end, map fst (b_own b)).
